@@ -79,7 +79,12 @@ type End struct {
 	Name     string
 	PipeLike bool // Close also unblocks this end's own Recv with a closing error
 	RejectLF bool // like channel.Line: Send refuses (and drops) a record that contains a line feed
-	Spin     int  // Gosched iterations inside each operation
+	// ReuseRecvBuf makes Recv hand out a slice of one buffer that the next Recv
+	// overwrites (as the header and RawJSON framings do): a caller that keeps
+	// using a record after asking for the next one reads garbage.
+	ReuseRecvBuf bool
+	rbuf         []byte
+	Spin         int // Gosched iterations inside each operation
 
 	in, out *queue
 	mon     Monitor
@@ -244,6 +249,18 @@ func (e *End) Recv() ([]byte, error) {
 	q.mu.Unlock()
 	e.recvShadow++
 	e.event("recv.exit", rec)
+	if e.ReuseRecvBuf && err == nil {
+		// scribble over what the previous Recv returned, then reuse the buffer
+		for i := range e.rbuf {
+			e.rbuf[i] = '#'
+		}
+		if cap(e.rbuf) < len(rec) {
+			e.rbuf = make([]byte, len(rec), 2*len(rec)+64)
+		}
+		e.rbuf = e.rbuf[:len(rec)]
+		copy(e.rbuf, rec)
+		return e.rbuf, nil
+	}
 	return rec, err
 }
 
